@@ -483,7 +483,7 @@ def rule_l8(ctx):
                            '' if ok else 'the helper is started with buffer_size=%s instead of self.buffer_size: user functions '
                            'run further ahead of the consumer than the configured prefetch buffer' % (
                                A.short(e) if e is not None else 'its own default'))
-    rep.floor('helper hand-over sites', n, 5)
+    rep.floor('helper hand-over sites', n, 3)
 
 
 def run(ctx):
